@@ -3,6 +3,9 @@
    `lwire_*`, instrumented strict reference decoder `pwire_*`) (C05). *)
 From EP Require Import Base.Bytes Parse.Types Parse.Slices Parse.Cursor Parse.View Parse.WireSpec
   Parse.LaxSlices Parse.LaxCursor Parse.LaxView Parse.LaxWire.
+(* ---- audit round 1: the finer instrumented strict reference decoder `pwire2_*` ---- *)
+From EP Require Import Parse.LaxWire2.
+(* ---- end audit round 1 ---- *)
 From Coq Require Import Extraction ExtrOcamlBasic.
 Extraction Language OCaml.
 Extraction "m_c05.ml"
@@ -15,4 +18,5 @@ Extraction "m_c05.ml"
   LaxIpv6Exts.from_slice_lax LaxIpv4Exts.from_slice_lax Ipv4Exts.from_slice UdpSlice.from_slice_lax
   IpSlice.from_slice Ipv4Slice.from_slice Ipv6Slice.from_slice Macsec.from_slice UdpSlice.from_slice
   Ipv6ExtensionsSlice.from_slice
-  lview_v4 lview_v6 lview_macsec view_net view_ext.
+  lview_v4 lview_v6 lview_macsec view_net view_ext
+  (* audit round 1 *) pwire2_ethernet pwire2_ether_type pwire2_from_ip.
